@@ -306,9 +306,12 @@ def m_mode(st):
     si = rng.randrange(len(st.sections))
     if not st.claim("mode%d" % si):
         return
-    which = rng.choice(["none", "both-sealed-extent", "both-extent-sealed", "sealed-twice", "extent-twice", "extent-before-attribute", "sealed-first", "sealed-with-arg", "extent-no-arg"])
+    which = rng.choice(["none", "both-sealed-extent", "both-extent-sealed", "sealed-twice", "extent-twice", "extent-before-attribute", "sealed-first", "sealed-with-arg",
+                        "extent-no-arg", "extent-before-constant", "extent-before-padding", "sealed-before-constant", "extent-before-directive"])
+    if which == "extent-before-padding" and st.sections[si]["union"]:
+        which = "extent-before-constant"
     st.sections[si]["mode"] = which
-    st.add("mode-" + which, which == "sealed-first")
+    st.add("mode-" + which, which in ("sealed-first", "sealed-before-constant", "extent-before-directive"))
 
 
 def m_extent(st):
@@ -459,6 +462,14 @@ def render_main(st):
             lines += ["@sealed", "@sealed"]
         elif mode == "extent-twice":
             lines += ["@extent %d" % (mx + 64)] * 2
+        elif mode == "extent-before-constant":
+            lines += ["@extent %d" % (mx + 64), "uint8 LATE_CONSTANT = 1"]
+        elif mode == "extent-before-padding":
+            lines += ["@extent %d" % (mx + 64), "void8"]
+        elif mode == "sealed-before-constant":
+            lines += ["@sealed", "uint8 LATE_CONSTANT = 1"]
+        elif mode == "extent-before-directive":
+            lines += ["@extent %d" % (mx + 64), "@assert true", "@print 1"]
         elif mode == "sealed-with-arg":
             lines.append("@sealed 1")
         elif mode == "extent-no-arg":
